@@ -276,11 +276,20 @@ pub fn run_scenario(sc: &Value, top: &Path) -> Value {
     let link = if sc["follow"].as_bool().unwrap_or(false) { LinkBehavior::ReadTarget } else { LinkBehavior::ReadFile };
     let min = sc["min"].as_i64().unwrap_or(-1);
     let max = sc["max"].as_i64().unwrap_or(-1);
-    let depth = DepthBehavior::bounded(
-        if min > 0 { Some(min as usize) } else { None },
-        if max >= 0 { Some(max as usize) } else { None },
-    )
-    .unwrap_or_default();
+    // the same bounds through the different public constructors (sc.ctor)
+    let lo = if min > 0 { min as usize } else { 0 };
+    let depth = match sc["ctor"].as_str().unwrap_or("bounded") {
+        // "the depths need not be ordered"
+        "from_depths" if max >= 0 => wax::walk::DepthMinMax::from_depths_or_max(lo, max as usize),
+        "from_depths_swapped" if max >= 0 => wax::walk::DepthMinMax::from_depths_or_max(max as usize, lo),
+        "from_min" if max < 0 => wax::walk::DepthMin::from_min_or_unbounded(lo),
+        "from_max" if max >= 0 && min <= 0 => DepthBehavior::from(wax::walk::DepthMax(max as usize)),
+        _ => DepthBehavior::bounded(
+            if min > 0 { Some(min as usize) } else { None },
+            if max >= 0 { Some(max as usize) } else { None },
+        )
+        .unwrap_or_default(),
+    };
     let behavior = WalkBehavior { depth, link };
     let layers: Vec<Value> = sc["layers"].as_array().cloned().unwrap_or_default();
     // assign scenario layers to slots of the fixed shape F N F N F N F
@@ -305,7 +314,21 @@ pub fn run_scenario(sc: &Value, top: &Path) -> Value {
             let text = from_cps(&sc["glob"]);
             // a rooted glob is spelled with the absolute scratch path in front of it (escaped)
             let text = if sc["rooted"].as_bool().unwrap_or(false) {
-                format!("{}/{}", wax::escape(&walked.to_string_lossy()), text)
+                let abs = wax::escape(&walked.to_string_lossy()).into_owned();
+                // rooted_variant: the first component after the root is a pattern (/?erif/..), so that the
+                // invariant prefix of the glob is the root alone and the walk starts at the root of the file
+                // system, pruning by component
+                let abs = if sc["rooted_variant"].as_bool().unwrap_or(false) {
+                    let mut cs: Vec<char> = abs.chars().collect();
+                    if cs.len() > 1 && cs[0] == '/' && cs[1].is_ascii_alphanumeric() {
+                        cs[1] = '?';
+                    }
+                    cs.into_iter().collect()
+                }
+                else {
+                    abs
+                };
+                format!("{}/{}", abs, text)
             }
             else {
                 text
